@@ -422,8 +422,9 @@ def stepU (s : St α) : Op → Option (St α × String)
   | .uEval dst a e =>
     let ra := uGet env s a; let re := eGet env s e
     let F := F0 env
-    let v := if goodScalar re then UPoly.eval F ra.val re.val
-             else UPoly.eval { F with mul := fun x y => if true then x else y } ra.val re.val
+    -- an unusable point (PF-18b): every `power.Mult(point)` fails, the running power stays 1 and the
+    -- result is the sum of the coefficients, i.e. the value at 1
+    let v := if goodScalar re then UPoly.eval F ra.val re.val else UPoly.eval F ra.val F.one
     let r : EReg α := { home := 0, val := v }
     some ({ s with es := St.setL s.es dst r }, "ok " ++ showE env r)
   | .uCoef dst a d =>
@@ -631,7 +632,17 @@ def stepB (s : St α) : Op → Option (St α × String)
     some ({ s with bs := St.setL s.bs dst r }, "ok " ++ showB env r)
   | .bEval dst a x y =>
     let ra := bGet s a
-    let r : EReg α := { home := 0, val := BPoly.eval (F0 env) ra.val (eGet env s x).val (eGet env s y).val }
+    let rx := eGet env s x; let ry := eGet env s y
+    -- `out.Plus(coef.Times(x.Pow(i)).Times(y.Pow(j)))`: the value-returning element operations check
+    -- their operands, so an unusable coordinate (carrying an error, or of another field object) makes
+    -- every term, and hence the result, erroneous — provided there is a term at all
+    let bad (e : EReg α) : Option Err :=
+      if e.err.isErr then some e.err.wrapInherit
+      else if e.home ≠ 0 then some (.kind .arithmeticIncompat) else none
+    let r : EReg α :=
+      match (if ra.val.isEmpty then none else (bad rx).orElse fun _ => bad ry) with
+      | some k => { home := 0, val := (F0 env).zero, err := k }
+      | none => { home := 0, val := BPoly.eval (F0 env) ra.val rx.val ry.val }
     some ({ s with es := St.setL s.es dst r }, "ok " ++ showE env r)
   | .bCoef dst a d =>
     let r : EReg α := { home := 0, val := BPoly.coef (F0 env) (bGet s a).val d }
